@@ -263,36 +263,45 @@ def scan_trusted(sel):
 
 def playback(meta, prop):
     """Re-run one failing harness with concrete playback and execute the
-    generated unit test natively against the real crate.
+    generated unit tests natively against the real crate.
     Returns (text, reproduced: bool)."""
     with common.WorkLock("kani"):
         crate = sync_crate()
         env = {"CARGO_TARGET_DIR": os.path.join(WORK, "target")}
         cmd = ["cargo", "kani"] + KANI_FLAGS + ["-Z", "concrete-playback",
-               "--concrete-playback=inplace", "--harness-timeout", "1800s",
+               "--concrete-playback=print", "--harness-timeout", "1800s",
                "--exact", "--harness", meta["full"]]
         rc, out = common.run(cmd, cwd=crate, env=env, timeout=2400)
         txt = ["$ " + " ".join(cmd), tail_relevant(out)]
-        src = os.path.join(crate, "src", meta["module"] + ".rs")
-        body = open(src).read()
-        tests = re.findall(r"fn (kani_concrete_playback_\w+)\s*\(", body)
-        reproduced = False
+        tests = re.findall(r"```\s*\n(.*?)```", out, re.S)
+        tests = [t for t in tests if "concrete_playback_run" in t]
         if not tests:
             txt.append("[replay] Kani produced no concrete playback test")
             return "\n".join(txt), False
-        for t in tests[:3]:
-            m = re.search(r"(#\[test\]\s*fn %s\s*\(.*?\n}\n)" % re.escape(t), body, re.S)
-            if m:
-                txt.append("--- generated test (inputs are the byte vectors below) ---")
-                txt.append(m.group(1))
-            cmd2 = ["cargo", "kani", "playback", "-Z", "concrete-playback", "--", t]
-            rc2, out2 = common.run(cmd2, cwd=crate, env=env, timeout=1200)
-            txt.append("$ " + " ".join(cmd2))
-            keep = [l for l in out2.splitlines()
-                    if re.search(r"panicked|test result|FAILED|failed|ok$|assert|thread '", l)]
-            txt.append("\n".join(keep[-25:]))
-            if rc2 != 0 and re.search(r"panicked|FAILED", out2):
-                reproduced = True
+        body = ["// generated by /verif/check from Kani's concrete playback output",
+                "#![allow(unused_imports)]"]
+        names = []
+        for t in tests[:4]:
+            t = re.sub(r",\s*%s\)" % re.escape(meta["name"]),
+                       ", crate::%s::%s)" % (meta["module"], meta["name"]), t)
+            m = re.search(r"fn (kani_concrete_playback_\w+)", t)
+            if m and m.group(1) not in names:
+                names.append(m.group(1))
+                body.append(t)
+        with open(os.path.join(crate, "src", "pb.rs"), "w") as f:
+            f.write("\n".join(body) + "\n")
+        txt.append("--- concrete inputs (one byte vector per kani::any() call, in order) ---")
+        txt.append("\n".join(body[2:]))
+        reproduced = False
+        cmd2 = ["cargo", "kani", "playback", "-Z", "concrete-playback", "--", "kani_concrete_playback"]
+        rc2, out2 = common.run(cmd2, cwd=crate, env=env, timeout=1800)
+        txt.append("$ " + " ".join(cmd2))
+        keep = [l for l in out2.splitlines()
+                if re.search(r"panicked at|^test |test result|^\s+\[C\d\d|assertion|overflow|index out|^error", l)]
+        txt.append("\n".join(keep[-40:]))
+        if re.search(r"panicked at|test result: FAILED", out2):
+            reproduced = True
+        # leave the work copy clean for the next run
         return "\n".join(txt), reproduced
 
 
@@ -301,6 +310,6 @@ def tail_relevant(out):
     for l in out.splitlines():
         if "Unwinding" in l or l.startswith("warning") or not l.strip():
             continue
-        if re.search(r"Failed Checks|File:|VERIFICATION|Concrete playback|error|Check \d+:.*FAILURE", l):
+        if re.search(r"^Failed Checks|^ File:|^VERIFICATION|^error", l):
             keep.append(l)
     return "\n".join(keep[-60:])
